@@ -171,6 +171,16 @@ struct TSt<Hd: SizedPayload, El: SizedPayload> {
 }
 
 const MAXS: usize = 10;
+
+/// slice length from a byte: mostly 0..8, sometimes around a power-of-two / integer-width boundary
+fn thin_len(c: u8) -> usize {
+    const BIG: [usize; 10] = [9, 15, 16, 17, 31, 64, 255, 256, 257, 300];
+    if c < 216 {
+        (c as usize * 9) / 216
+    } else {
+        BIG[((c - 216) as usize * BIG.len()) / 40]
+    }
+}
 const PT: &[&str] = &["C10"];
 const PL: &[&str] = &["C01"];
 const PN: &[&str] = &["C04"];
@@ -428,7 +438,7 @@ impl<Hd: SizedPayload, El: SizedPayload> TSt<Hd, El> {
         if self.slots.len() >= MAXS {
             return;
         }
-        let len = pick(c, 9);
+        let len = thin_len(c);
         match pick(b, 4) {
             0 => {
                 let hv = self.fresh();
@@ -649,7 +659,7 @@ impl<Hd: SizedPayload, El: SizedPayload> TSt<Hd, El> {
         if self.slots.len() >= MAXS {
             return;
         }
-        let len = pick(c, 6);
+        let len = thin_len(c);
         let rec = match pick(b, 5) {
             0 => len + 1,
             1 => len.wrapping_sub(1),
@@ -713,7 +723,7 @@ impl<Hd: SizedPayload, El: SizedPayload> TSt<Hd, El> {
             }
             2 | 3 | 4 => {
                 // replace the Arc by a fresh one (2), then panic (3), or panic before replacing (4)
-                let len = pick(c, 5);
+                let len = thin_len(c);
                 let hv = self.fresh();
                 let vals: Vec<u64> = (0..len).map(|_| self.fresh()).collect();
                 let (fresh, _e): (Prot<Hd, El>, _) = track(|| {
